@@ -719,6 +719,9 @@ impl Lane {
                     }
                     BridgeError::SerializeRequests(_) => Reject::SerializeRequests,
                     BridgeError::SerializeView(_) => Reject::SerializeView,
+                    // an error variant this harness does not know (a changed tree may add one)
+                    #[allow(unreachable_patterns)]
+                    _ => Reject::Other,
                 };
                 Outcome::Rejected(rej, msg)
             }
